@@ -214,10 +214,13 @@ class Prims:
         return v, FALSE   # int <-> uint: modular
 
     # --- library functions (uninterpreted on both sides) --------------------------------------------
-    def tr(self, s):
+    TR_CONTEXT = 'Doc'      # documented: the translation context of qsTr() is the type name of the document
+
+    def tr(self, s, ctx=None):
+        ctx = z3.StringVal(self.TR_CONTEXT) if ctx is None else ctx
         if self.concrete_lib:
-            return z3.Concat(z3.StringVal('tr('), s, z3.StringVal(')'))
-        return self.uf('tr', STR, STR)(s)
+            return z3.Concat(z3.StringVal('tr('), ctx, z3.StringVal(':'), s, z3.StringVal(')'))
+        return self.uf('tr', STR, STR, STR)(ctx, s)
 
     def arg(self, s, x, xty):
         if self.concrete_lib:
